@@ -312,6 +312,51 @@ class Angle:
             return explore.SymBool(f)
         raise UnsupportedInShim('angle comparison window [%s,%s] threshold %s' % (lo, hi, q if q is not None else tlo))
 
+    def _eq(self, o):
+        """theta == t for a constant t (in this angle's unit)"""
+        if isinstance(o, Angle):
+            raise UnsupportedInShim('Angle == Angle')
+        try:
+            tlo, thi, q = self._threshold(o)
+        except UnsupportedInShim:
+            raise
+        zc = explore.ctx().zc
+        if self.lo is None:
+            raise UnsupportedInShim('equality test on a windowless angle')
+        if q is None:
+            if tlo != thi:
+                raise UnsupportedInShim('fuzzy equality threshold')
+            # numeric threshold in radians: outside window -> False
+            if tlo > self.hi * PI_HI or tlo < self.lo * PI_LO - (0 if self.lo >= 0 else 1):
+                return False
+            raise UnsupportedInShim('Angle == non-pi-multiple constant inside the window')
+        if q > self.hi or q < self.lo or (q == self.hi and self.hi_open) or (q == self.lo and self.lo_open):
+            return False
+        ct = _exact_cos(q)
+        st = _exact_cos(q - Fraction(1, 2))
+        if ct is None:
+            raise UnsupportedInShim('Angle == %s*pi: cosine is irrational' % q)
+        f = zc.cmp0(self.c - lift(ct), '==')
+        if not (self.lo >= 0 and self.hi <= 1):
+            if self.hi - self.lo > 2 or (self.hi - self.lo == 2 and not (self.lo_open or self.hi_open)):
+                raise UnsupportedInShim('Angle == const on a window wider than one turn')
+            sgn = _sin_sign(q)
+            f = z3.And(f, zc.cmp0(self.s, '>' if sgn > 0 else ('<' if sgn < 0 else '==')))
+        return explore.SymBool(f)
+
+    def __eq__(self, o):
+        if isinstance(o, np.ndarray):
+            return NotImplemented
+        return self._eq(o)
+
+    def __ne__(self, o):
+        if isinstance(o, np.ndarray):
+            return NotImplemented
+        return _not(self._eq(o))
+
+    def __hash__(self):
+        return 1
+
     def __lt__(self, o):
         return self._lt(o, True)
 
@@ -332,6 +377,22 @@ def _not(b):
     if isinstance(b, explore.SymBool):
         return ~b
     return not b
+
+
+def _exact_cos(q):
+    """cos(q*pi) when rational (Niven), else None"""
+    q = q % 2
+    table = {Fraction(0): 1, Fraction(1, 3): Fraction(1, 2), Fraction(1, 2): 0, Fraction(2, 3): Fraction(-1, 2), Fraction(1): -1,
+             Fraction(4, 3): Fraction(-1, 2), Fraction(3, 2): 0, Fraction(5, 3): Fraction(1, 2)}
+    v = table.get(q)
+    return None if v is None else Fraction(v)
+
+
+def _sin_sign(q):
+    q = q % 2
+    if q == 0 or q == 1:
+        return 0
+    return 1 if q < 1 else -1
 
 
 def _cos_of(q, t):
